@@ -1,0 +1,75 @@
+//go:build verif
+
+package csync
+
+// Contracts for GoVC (see /verif/DESIGN.md). Comment-only: compiles to nothing.
+//
+// Every Lock / TryLock call owns one atomic cell (status / unlocked). Ghost history:
+//   mxl(c)   the Mutex a Lock status cell belongs to (set when the cell is created, never changed)
+//   mxt(c)   the Mutex a TryLock cell was granted by (set at the grant, never changed)
+//   grant(c) the Mutex that cell c currently holds, nil if none          (written only in critical sections)
+//   relby(c) the release invocation that swapped c away from "held" and has not finished unlocking (owned)
+// Mutex.owner (ghost, guarded) is the cell that holds the Mutex.
+//
+// C01 for Mutex: G1 says a granted cell is *the* owner of its Mutex, so two cells can never hold the same
+// Mutex; G2/G5 say a caller whose cell reads "held" is granted; a release that is not the first one and a
+// failed Lock / TryLock never write the lock state (written(m.locked) is false).
+//
+//@ ghostmap mxl: ref -> ref once
+//@ ghostmap mxt: ref -> ref once
+//@ ghostmap grant: ref -> ref
+//@ ghostmap relby: ref -> ref owned
+//
+//@ object Mutex
+//@   props C01 C02 C13
+//@   lock bcast.mtx
+//@   guarded locked
+//@   ghost owner: ref
+//@   inv I1: this.locked <==> this.owner != nil
+//@   inv I2: this.owner != nil ==> grant(this.owner) == this
+//@   trans TB: old(this.locked) && !this.locked ==> (old(this.bcast.ch) != nil ==> closed(old(this.bcast.ch)))
+//
+//@ ginv G1: forall c: ref {grant(c)} :: grant(c) != nil ==> c != nil && cast(grant(c), Mutex).owner == c && (mxl(c) == grant(c) || mxt(c) == grant(c))
+//@ ginv G2: forall c: ref {mxl(c)} :: mxl(c) != nil && aint(c) == 1 ==> grant(c) == mxl(c)
+//@ ginv G3: forall c: ref {relby(c)} :: relby(c) != nil ==> grant(c) != nil && mxl(c) == grant(c) && aint(c) == 2
+//@ ginv G4: forall c: ref {grant(c)} :: grant(c) != nil && mxl(c) == grant(c) ==> aint(c) == 1 || (aint(c) == 2 && relby(c) != nil)
+//@ ginv G5: forall c: ref {mxt(c)} :: mxt(c) != nil && !abool(c) ==> grant(c) == mxt(c)
+//@ ginv G6: forall c: ref {mxl(c)} :: mxl(c) != nil ==> mxt(c) == nil
+//
+//@ func (*Mutex).Lock
+//@   props C01 C02
+//@   opt frame = skip
+//@   requires ctx != nil
+//@   ghost init status: mxl(status) := m
+//@   ensures held: result1 == nil ==> aint(status) == 1 && grant(status) == m
+//@   ensures failed: result1 != nil ==> result1 == context.Canceled && cancelled(ctx) && !written(m.locked)
+//@   loop 1 invariant waiting: aint(status) == 0 && !written(m.locked) && mxl(status) == m
+//@   loop 1 invariant parked: waitCh != nil && issuedBy(waitCh) == m.bcast && gettime(waitCh) == lastcs()
+//@   assert select 1: selects(waitCh) && selects(done(ctx)) && waitCh != nil && issuedBy(waitCh) == m.bcast && gettime(waitCh) == lastcs()
+//
+//@ closure (*Mutex).Lock$1
+//@   props C01 C02
+//@   ghost atomic 1: grant(status) := ite(ret, m, grant(status))
+//@   ghost atomic 1: m.owner := ite(ret, status, m.owner)
+//@   assert exit: aint(status) != 1 ==> waitCh != nil && waitCh == m.bcast.ch && m.locked
+//
+//@ closure (*Mutex).Lock$3
+//@   props C01 C02
+//@   ghost atomic 1: grant(status) := ite(ret, m, grant(status))
+//@   ghost atomic 1: m.owner := ite(ret, status, m.owner)
+//@   assert exit: aint(status) != 1 ==> waitCh != nil && waitCh == m.bcast.ch && m.locked
+//
+//@ func (*Mutex).Lock$2
+//@   props C01 C02
+//@   inline
+//@   opt frame = skip
+//@   captured mxl(status) == m && m != nil && status != nil
+//@   ghost atomic 1: relby(status) := ite(ret == 1, me, relby(status))
+//@   ensures norepeat: pre != 1 ==> !written(m.locked)
+//@   ensures released: pre == 1 ==> grant(status) == nil
+//
+//@ closure (*Mutex).Lock$2$1
+//@   props C01 C02
+//@   ghost exit: grant(m.owner) := nil
+//@   ghost exit: relby(m.owner) := nil
+//@   ghost exit: m.owner := nil
